@@ -18,7 +18,7 @@ CACHE = os.path.join(VERIF, ".build")
 GUARD = "MPT_VERIF"
 
 SAN = ("-fsanitize=address,undefined,float-cast-overflow "
-       "-fno-sanitize=alignment,nonnull-attribute -fno-sanitize-recover=all")
+       "-fno-sanitize=alignment,nonnull-attribute,vptr -fno-sanitize-recover=all")
 FLAVOURS = {
     # name: (cc, cxx, flags, targets)
     "asan": ("gcc", "g++", "-O1 -g -fno-omit-frame-pointer %s -D%s" % (SAN, GUARD),
@@ -96,6 +96,7 @@ def ensure_lib(flavour="asan", repo=None):
     cc, cxx, flags, targets = FLAVOURS[flavour]
     os.makedirs(CACHE, exist_ok=True)
     th = tree_hash(repo)
+    th = hashlib.sha256((th + "|" + cc + "|" + cxx + "|" + flags + "|" + " ".join(targets)).encode()).hexdigest()[:20]
     bdir = os.path.join(CACHE, "%s-%s" % (flavour, th))
     ok = os.path.join(bdir, ".ok")
     if os.path.exists(ok):
